@@ -67,8 +67,25 @@ def vtag(variant):
     return str(variant) if not isinstance(variant, tuple) else "-".join(variant[0]) + "_" + variant[1].replace("+", "")
 
 
+def long_world():
+    """a read cluster longer than 32 kb (cut into sub-regions at the coverage valley): gene G1 (exons 1001-1200, 5001-5200, 38001-38300) with
+       gene G2 nested in its last intron (34501-34700, 36001-36200); one read follows G1 end to end, i.e. it spans G2's exons and intron"""
+    from vlib import syn, worlds as W
+    w = {"chroms": {"chr1": 45000, "chr2": 3000}, "sites": [], "reads": [], "genes": [
+        {"id": "G1", "chr": "chr1", "strand": "+", "transcripts": [{"id": "T1", "exons": [[1001, 1200], [5001, 5200], [38001, 38300]]}]},
+        {"id": "G2", "chr": "chr1", "strand": "+", "transcripts": [{"id": "T2", "exons": [[34501, 34700], [36001, 36200]]}]}]}
+    syn.plant_for_transcripts(w)
+    for i in range(3):
+        w["reads"].append(W.read_of("a%d_gA" % i, "chr1", [[1051, 1200], [5001, 5150]], polya=False))
+        w["reads"].append(W.read_of("b%d_gB" % i, "chr1", [[34551, 34700], [36001, 36150]], polya=False))
+    w["reads"].append(W.read_of("c0_gA", "chr1", [[1101, 1200], [5001, 5200], [38001, 38200]], polya=False))
+    return w
+
+
 def make_world(variant, two_clusters):
     from vlib import syn, worlds as W
+    if variant == "long-locus":
+        return long_world()
     genes, S = annotation(variant)
     w = {"chroms": {"chr1": 14000, "chr2": 3000}, "genes": genes, "reads": [], "sites": []}
     syn.plant_for_transcripts(w)
@@ -297,6 +314,11 @@ def case(args):
                                  "%d/%d, by the statement %d/%d - reads that contain the feature within delta are counted as excluding it" %
                                  (kind, k, kind, delta, got_inc, got_exc, inc, exc)))
                     continue
+                if variant == "long-locus" and got_inc == inc and got_exc < exc:
+                    errs.append((kind + ":count:split-cluster-lost-exclusion", "%s %s in a read cluster that is cut into sub-regions: reported "
+                                 "include/exclude %d/%d, recount %d/%d - the read that spans the feature is processed once per sub-region with that "
+                                 "sub-region's genes, and the copy that is kept does not know the feature" % (kind, k, got_inc, got_exc, inc, exc)))
+                    continue
                 errs.append((kind + ":count", "%s %s: reported include/exclude %d/%d, recount from the alignments %d/%d" %
                              (kind, k, got_inc, got_exc, inc, exc)))
         if grouped:
@@ -365,6 +387,7 @@ def run(ctx):
                     jobs.append(((isos, second), two, preset, 0, ctx.scratch))
     for preset in ("exact", "default"):
         jobs.append(((("A1", "A8"), "none"), 0, preset, 0, ctx.scratch))
+    jobs.append(("long-locus", 0, "default", 0, ctx.scratch))
     nrows = 0
     for key, errs, nf in core.pmap(case, jobs):
         nrows += nf
